@@ -21,6 +21,8 @@ type BCfg struct {
 	CB func(kind string)
 	// SlowDial: the relay address generator's AllocateConn (the outgoing connection of a Connect) takes this long.
 	SlowDial time.Duration
+	// SlowAlloc: the generator's AllocatePacketConn (the relay socket of an Allocate) takes this long.
+	SlowAlloc time.Duration
 }
 
 // BW is the closed system of an Engine-B scenario.
@@ -44,6 +46,9 @@ func (g bgen) AllocatePacketConn(c turn.AllocateListenerConfig) (net.PacketConn,
 	g.w.mu.Lock()
 	g.w.Gen++
 	g.w.mu.Unlock()
+	if g.w.cfg.SlowAlloc > 0 {
+		vsched.IdleSleep(g.w.cfg.SlowAlloc)
+	}
 	s, err := g.w.Net.ListenUDP(c.Network, &net.UDPAddr{IP: net.IPv4(10, 9, 0, 1).To4(), Port: c.RequestedPort})
 	if err != nil {
 		return nil, nil, err
